@@ -19,20 +19,29 @@ SENTINEL = 4294967295
 def run(r):
     quick = r.tier == "quick"
     r.trusted += TRUSTED_COMMON + [
-        "the Hash feed of Node (discriminants, length prefixes, fields) is an injective encoding of the erased tree [erase]; "
-        "the tie checks equal/unequal of the real keys against the model on generated pairs, not the feed itself",
-        "the key hooks uiua::verif::c12::{sig_key,node_key,inverse_key} repeat the three hashing lines of check.rs:54-56, tree.rs:920-922, un.rs:38-42 "
-        "(now: inverse_key = hash_deep(Some(asm)) per node, zip_key = hash_deep(None); the statics are function-local and cannot be reached); the history search observes the real caches",
-        "[deps] over-approximates what each cached computation reads (read from the Rust; checked on pairs: equal deps => equal real un-inverse / signature)",
-        "the regex, big-constant and geometric-algebra tables are keyed by their whole input (identity key): not modelled",
+        "the Hash feed of Node (discriminants, length prefixes, fields; a Function feeds its body hash and its signature) and what Node::hash_deep adds "
+        "(every span index, every call's function index and id, with an assembly the same for called bodies) are injective encodings of the model's "
+        "projections [erase] / [deep] / [shallow]; the tie checks equal/unequal of the REAL keys against the model on generated pairs, not the feed itself",
+        "the key hooks uiua::verif::c12::{sig_key,node_key,inverse_key,zip_key} call the real Hash / hash_deep; anti_inverse_key repeats the three hashing lines of "
+        "un.rs anti_inverse (for_un first); the cache statics are function-local and cannot be reached, so the hit behaviour of the real un cache is tied separately "
+        "(y asked right after x in one new thread) and the history search observes all the real caches",
+        "the exporter prints CustomInverse, NoInline, TrackCaller, Label, Format and the other rare variants as opaque nodes (content hash + own span): "
+        "the tie does not vary ingredients inside them",
+        "[deps] over-approximates what each cached computation reads (read from the Rust; checked on pairs: equal deps and equal spans-table length => equal real "
+        "un-inverse; equal sig deps => equal real signature)",
+        "the per-cache bypass switch (verif::c12::set_bypass: a cache is emptied on every use) and the MATCH_CONST_SPAN switch only serve to name the responsible "
+        "cache in a violation key; the comparison history-vs-fresh-thread itself uses no hook",
+        "the regex, big-constant and geometric-algebra tables are keyed by their whole input (identity key), the wasm-only import cache and the on-disk .uasm cache: not modelled",
     ]
     r.assumptions += [
-        "no collision of the 64-bit RapidHasher hash among the keys of a history (premise of C12_memo_transparent_hashed; "
-        "also Function.hash identifies the body: wf_body)",
-        
+        "no collision of the 64-bit RapidHasher hash among the keys of a history (premise of C12_memo_transparent_hashed; the theorems about the real caches take an "
+        "injective kinj for the hash); Function.hash identifies the body (wf_body, comptime cache)",
+        "the inversion reads of the assembly only: the input nodes, the bodies of the functions they call, and the length of the spans table (which, when read, keeps the "
+        "result out of the cache: inv_store_l); the handle's origin field is not keyed (no text program moves it without moving a span)",
         "the comptime cache's gate is modelled as `does not read the backend`; the code asks is_pure, whose own cache is the open purity finding",
         "nodes reaching the comptime cache contain no CallGlobal (globals = []): matches_nodes admits only constants, which compile to Push",
-        "outcomes that differ between two fresh runs (random, time) or hit the execution limit are excluded from the comparison",
+        "outcomes that differ between two fresh runs (random, time) or hit the execution limit are excluded from the comparison; a comptime result cached as `timed out` "
+        "(40 ms limit) is timing-dependent and not modelled",
     ]
     if not r.harness(["c12"]):
         return
@@ -171,12 +180,18 @@ def run(r):
                        "(the tie decides; if the code was repaired, replace the _refuted theorems by the _after_fix ones)" % [expected[k] for k in stale])
     r.coverage["evaluations"] = len(cases) + s["evaluations"]
     r.coverage["distinct_nontrivial"] = s["distinct_programs"] + len(set((c["x"], c["y"]) for c in cases if c["kind"] != "identical"))
-    r.coverage["rule"] = ("tie: a random sub-tree of a real compiled program (generated definitions + one use line, Lazy pre-eval) paired with a copy in which exactly one "
-                          "ingredient differs (a nested span, the first span, a literal, a primitive, a binding index, the function handles' index, the spans inside called "
-                          "bodies, a handle's sig field); search: histories of 2-6 programs (generated programs sharing content at different positions and function indices; "
-                          "consecutive corpus chunks of tests/*.ua and examples/*.ua; a chunk with its shifted/reordered/renamed/re-valued edit), every program of a history "
-                          "compared with its outcome (values, error text, positions, trace, diagnostics) in a fresh thread; the same program on 8 threads; "
-                          "non-trivial = distinct program texts + distinct non-identical tree pairs")
+    r.coverage["rule"] = ("tie: a random sub-tree (outside opaque variants) of a real compiled program (generated definitions + one use line, Lazy pre-eval) paired with a copy in "
+                          "which one ingredient differs: a nested span, the first span, a literal, a primitive, a binding index, for_un, the function handles' index (with / "
+                          "without the body spans moving: an earlier constant toggled to a constant function), the spans inside called bodies, a handle's name, its sig "
+                          "field, a declared signature over the same body; for each pair the real signature / node / inverse / anti / fast-function keys must be equal "
+                          "exactly when the model's are, the real un cache must hit exactly when the model's key is equal and the entry usable, and equal model deps "
+                          "must give equal real inverses and signatures.  search: first the regression corpus (24 histories: every pair that ever differed, repaired or "
+                          "open), then histories of 2-6 generated programs sharing content at different positions, function indices and names, programs that keep a call to "
+                          "a constant function in a cached inverse paired with their const-fn edit in both orders, consecutive corpus chunks of tests/*.ua and examples/*.ua, "
+                          "a chunk with its shifted / reordered / renamed / re-valued / const-fn edit, six texts compiled in Lsp mode on the native and then the denying "
+                          "backend; every program of a history is compared with its outcome (values, error text, positions, trace, diagnostics) in a fresh thread; the same "
+                          "program on 8 threads at once.  A difference is keyed by the cache whose emptying removes it (and :spans-len when the match-constant span switch "
+                          "removes it).  non-trivial = distinct program texts + distinct non-identical tree pairs")
 
 
 def replay(rec):
